@@ -51,6 +51,9 @@ class Synth:
         order = rng.permutation(len(self.samples))
         self.samples = [self.samples[i] for i in order]              # VCF column order mixes populations
         self.extra = ["unlisted1"] if rng.random() < 0.5 else []     # a sample absent from popinfo
+        # half of the files carry allelic depths and total depth next to the genotype (missing calls then also have depth 0)
+        self.fmt = "GT:AD:DP" if rng.random() < 0.5 else "GT"
+        self.depth_seed = int(rng.integers(2 ** 31))
         chroms = ["chr1", "sc_af.1", "x.y_z", "2"]
         nsnp = int(rng.integers(40, 160))
         self.records = []
@@ -96,9 +99,26 @@ class Synth:
     def vcf_text(self):
         lines = ["##fileformat=VCFv4.2", "##source=verif",
                  "#CHROM\tPOS\tID\tREF\tALT\tQUAL\tFILTER\tINFO\tFORMAT\t" + "\t".join([s for s, _ in self.samples] + self.extra)]
+        drng = np.random.default_rng(self.depth_seed)
+        self.depths = []
         for ch, pos, ref, alt, aa, filt, gts in self.records:
             info = "NS=3" if aa is None else "NS=3;AA=%s;DPX=1" % aa
-            lines.append("%s\t%d\t.\t%s\t%s\t50\t%s\t%s\tGT\t%s" % (ch, pos, ref, alt, filt, info, "\t".join(gts)))
+            cells, row = [], []
+            for g in gts:
+                if self.fmt == "GT":
+                    cells.append(g)
+                    row.append(None)
+                elif "." in g:
+                    cells.append("%s:0,0:0" % g)
+                    row.append(0)
+                else:
+                    r_, a_ = int(drng.integers(0, 9)), int(drng.integers(0, 9))
+                    if r_ + a_ == 0:
+                        r_ = 1
+                    cells.append("%s:%d,%d:%d" % (g, r_, a_, r_ + a_))
+                    row.append(r_ + a_)
+            self.depths.append(row)
+            lines.append("%s\t%d\t.\t%s\t%s\t50\t%s\t%s\t%s\t%s" % (ch, pos, ref, alt, filt, info, self.fmt, "\t".join(cells)))
         return "\n".join(lines) + "\n"
 
     def popinfo_text(self, header):
@@ -211,6 +231,17 @@ def run_vcf(spec, rec, dadi):
                 break
         if good:
             rec.check("dict-entries", True, site="Misc.make_data_dict_vcf", tags=tags)
+        # asking for more (coverage, ploidy, flanking bases that the file does not have) must not change which SNPs are usable
+        # nor their counts (what the extra outputs contain is not part of the property and is not judged)
+        if syn.fmt != "GT":
+            ok2, res2 = rec.noraise("make_data_dict_vcf-returns", lambda: Misc.make_data_dict_vcf(vcf, pop, filter=use_filter, calc_coverage=True, extract_ploidy=True,
+                                                                                                flanking_info=["RFL", "AFL"]),
+                                    site="Misc.make_data_dict_vcf", tags=dict(tags, options=True))
+            if ok2:
+                dd2 = res2[0] if isinstance(res2, tuple) else res2
+                same = set(dd2) == set(dd) and all(tuple(dd2[k]["segregating"]) == tuple(dd[k]["segregating"]) and dd2[k]["outgroup_allele"] == dd[k]["outgroup_allele"]
+                                                   and all(tuple(dd2[k]["calls"][p_]) == tuple(dd[k]["calls"][p_]) for p_ in syn.pops) for k in dd)
+                rec.check("options-do-not-change-calls", bool(same), site="Misc.make_data_dict_vcf", tags=tags)
         # spectra: several projections, polarised and folded
         for rep in range(3):
             pops = list(syn.pops)
